@@ -319,23 +319,15 @@ func c01Blocks(c *vh.Ctx, src string, prog *parser.Program) []c01Block {
 		}
 	}
 	end := ast.FieldByName("End")
-	allNonEmpty := end.Len() > 0
-	for i := 0; i < end.Len(); i++ {
-		if end.Index(i).Len() == 0 {
-			allNonEmpty = false
-		}
-	}
-	if allNonEmpty {
-		emit("END", "s", "", func(t *termCtx) []string {
-			n := 0
-			var body []string
+	if end.Len() > 0 {
+		// END blocks are compiled one after the other into one code array; each gets a Nop when its statements compile to
+		// nothing (G18-2)
+		emit("END", "E", "", func(t *termCtx) []string {
+			var out []string
 			for i := 0; i < end.Len(); i++ {
-				n += end.Index(i).Len()
-				for j := 0; j < end.Index(i).Len(); j++ {
-					body = append(body, t.stmt(end.Index(i).Index(j))...)
-				}
+				out = append(out, t.list(end.Index(i))...)
 			}
-			return append([]string{"L", fmt.Sprint(n)}, body...)
+			return out
 		}, comp.End)
 	}
 	fns := ast.FieldByName("Functions")
